@@ -8,3 +8,21 @@ class BadDist(Distribution):
 
     def _sample(self, num_samples, context):
         return torch.randn(context.shape[0], num_samples, 2)
+
+
+class NoisyDist(Distribution):
+    def _sample(self, num_samples, context):
+        return torch.normal(context, torch.ones_like(context))
+
+
+class Mixture(Distribution):
+    def __init__(self):
+        super().__init__()
+        self.register_buffer("w", torch.tensor([0.3, 0.7]))
+        self.register_buffer("mu", torch.tensor([-1.0, 2.0]))
+
+    def sample_and_log_prob(self, num_samples, context=None):
+        z = torch.multinomial(self.w, num_samples, replacement=True)
+        x = self.mu[z] + torch.randn(num_samples)
+        log_prob = torch.log(self.w[z]) - 0.5 * (x - self.mu[z]) ** 2
+        return x, log_prob
